@@ -88,7 +88,7 @@ theorem ffp_succ {c : Ctx} {mfuel D : Nat} (HF : FFP c mfuel D) (HI : IP c mfuel
                     simp only [eszL]; omega
                   obtain ⟨T, hT⟩ := HI f fd.ty ss' (by omega) hfield.1 (fun o ho s' hs' => hfield.2 o ho s' hs')
                     (fun s' hs' => List.all_eq_true.1 hfit s' hs') hsz
-                    (hcoh ⟨keyOf alias name, alias.isSome, name, some ss'⟩ fd ss'
+                    (hcoh ⟨keyOf alias name, isAliased alias name, name, some ss'⟩ fd ss'
                       (inFlat_of_mem hs (.field rfl)) rfl hfd)
                   simp only [hT, bind, Except.bind]
                   exact ⟨_, rfl⟩
